@@ -154,14 +154,20 @@ func (s *SpecValidator) Validate(data interface{}) (*Result, *Result) {
 	// default values and examples are not checked: a schema validator cannot be built on a schema
 	// with unresolvable references (NewSchemaValidator panics on such a schema).
 	if refsResolve {
+		// Default values and examples are plain data, not schemas: the rules about the structure of
+		// swagger schemas (items requires type array, array requires items) do not apply to them.
+		valueOptions := *s.schemaOptions
+		valueOptions.EnableObjectArrayTypeCheck = false
+		valueOptions.EnableArrayMustHaveItemsCheck = false
+
 		// Values provided as default MUST validate their schema
-		df := &defaultValidator{SpecValidator: s, schemaOptions: s.schemaOptions}
+		df := &defaultValidator{SpecValidator: s, schemaOptions: &valueOptions}
 		errs.Merge(df.Validate())
 
 		// Values provided as examples MUST validate their schema
 		// Value provided as examples in a response without schema generate a warning
 		// Known limitations: examples in responses for mime type not application/json are ignored (warning)
-		ex := &exampleValidator{SpecValidator: s, schemaOptions: s.schemaOptions}
+		ex := &exampleValidator{SpecValidator: s, schemaOptions: &valueOptions}
 		errs.Merge(ex.Validate())
 	}
 
